@@ -26,8 +26,11 @@ def sliderLine (mode : GameMode) (h : HitObject F P) (s : HitObjectSlider F P) (
   joinComma (coreFields s.pos.x s.pos.y h.startTime (objectTypeOf h) (soundTypeOf h.samples) ++ sliderFields mode h s dist)
 
 /-- **a slider the line format carries**: integral position within ±131072, start time within the parse limit, combo
-offset 0..7, a representable path (`RepPath`), 0..8999 repeats, and a written length `dist` — the expected length if
-there is one, otherwise the length of the computed curve — that is representable and within ±131072. -/
+offset 0..7, a representable path (`RepPath`, which excludes finding F17), 0..8999 repeats, and a written length `dist`
+— the expected length if there is one, otherwise the length of the computed curve — that is representable and within
+±131072 (`distRep`). The bound is the decoder's limit on the length field; the real encoder violates it for a slider
+without a length whose computed curve is longer than 131072 — finding **F20** (witness
+`0,0,1000,2,0,L|131072:131072|-131072:-131072|131072:131072,1`: the line written is rejected on re-read). -/
 structure RepSlider (RF : F → Prop) (RP : P → Prop) (mode : GameMode) (h : HitObject F P) (s : HitObjectSlider F P)
     (dist : F) : Prop where
   x : RepCoord RP s.pos.x
